@@ -9,25 +9,13 @@ package main
 import (
 	"fmt"
 	"go/ast"
+	"go/printer"
 	"go/token"
 	"go/types"
 	"sort"
 	"strconv"
 	"strings"
 )
-
-// functions translated (receiver-qualified). Missing ones are reported as an `unsupported` body.
-var irFuncs = []string{
-	"Run", "runBatch", "runBatchSequential", "runBatchConcurrent", "markUnprocessed", "runExecWithRetries",
-	"Flow.Run", "Flow.Prep", "Flow.Exec", "Flow.Post", "Flow.Connect", "NewFlow",
-	"CustomNode.Prep", "CustomNode.Exec", "CustomNode.Post", "CustomNode.ExecFallback",
-	"BaseNode.Prep", "BaseNode.Exec", "BaseNode.Post", "BaseNode.ExecFallback",
-	"BaseNode.GetMaxRetries", "BaseNode.GetWait", "BaseNode.GetBatchConcurrency", "BaseNode.GetBatchErrorHandling",
-	"BatchNode.Prep", "BatchNode.Post",
-	"BatchNodeBuilder.Prep", "BatchNodeBuilder.Exec", "BatchNodeBuilder.Post",
-	"NewWorkerPool", "WorkerPool.worker", "WorkerPool.Submit", "WorkerPool.Wait", "WorkerPool.Close",
-	"NewResult", "NewErrorResult", "Result.IsError", "Result.Value", "Result.Error",
-}
 
 func (x *extractor) findFunc(q string) *ast.FuncDecl {
 	recv, name := "", q
@@ -58,6 +46,15 @@ func (x *extractor) findFunc(q string) *ast.FuncDecl {
 }
 
 func (x *extractor) typeStr(e ast.Expr) string { return types.ExprString(e) }
+
+// exact source text of a node (comments dropped, whitespace normalised by go/printer)
+func (x *extractor) src(n ast.Node) string {
+	var sb strings.Builder
+	if err := printer.Fprint(&sb, x.fset, n); err != nil {
+		return "<unprintable>"
+	}
+	return strings.Join(strings.Fields(sb.String()), " ")
+}
 
 func (x *extractor) irExprs(es []ast.Expr) string {
 	parts := make([]string, len(es))
@@ -97,7 +94,7 @@ func (x *extractor) irExpr(e ast.Expr) string {
 		return "(.un \"*\" " + x.irExpr(v.X) + ")"
 	case *ast.CallExpr:
 		if v.Ellipsis != token.NoPos {
-			return "(.unsupported " + lstr(exprStr(v)) + ")"
+			return "(.unsupported " + lstr(x.src(v)) + ")"
 		}
 		// conversion T(a)?
 		if tv, ok := x.info.Types[v.Fun]; ok && tv.IsType() && len(v.Args) == 1 {
@@ -118,7 +115,7 @@ func (x *extractor) irExpr(e ast.Expr) string {
 			// calling the result of an expression, e.g. WithMaxRetries(r)(b.BaseNode)
 			return "(.mcall " + x.irExpr(v.Fun) + " \"()\" " + x.irExprs(v.Args) + ")"
 		}
-		return "(.unsupported " + lstr(exprStr(v)) + ")"
+		return "(.unsupported " + lstr(x.src(v)) + ")"
 	case *ast.SelectorExpr:
 		return "(.sel " + x.irExpr(v.X) + " " + lstr(v.Sel.Name) + ")"
 	case *ast.IndexExpr:
@@ -127,10 +124,10 @@ func (x *extractor) irExpr(e ast.Expr) string {
 		if v.High == nil && v.Max == nil && v.Low != nil {
 			return "(.sliceFrom " + x.irExpr(v.X) + " " + x.irExpr(v.Low) + ")"
 		}
-		return "(.unsupported " + lstr(exprStr(v)) + ")"
+		return "(.unsupported " + lstr(x.src(v)) + ")"
 	case *ast.TypeAssertExpr:
 		if v.Type == nil {
-			return "(.unsupported " + lstr(exprStr(v)) + ")"
+			return "(.unsupported " + lstr(x.src(v)) + ")"
 		}
 		return "(.assert " + x.irExpr(v.X) + " " + lstr(x.typeStr(v.Type)) + ")"
 	case *ast.CompositeLit:
@@ -141,7 +138,7 @@ func (x *extractor) irExpr(e ast.Expr) string {
 				for _, el2 := range v.Elts {
 					kv2, ok := el2.(*ast.KeyValueExpr)
 					if !ok {
-						return "(.unsupported " + lstr(exprStr(v)) + ")"
+						return "(.unsupported " + lstr(x.src(v)) + ")"
 					}
 					parts = append(parts, "(.bin \":\" "+x.irExpr(kv2.Key)+" "+x.irExpr(kv2.Value)+")")
 				}
@@ -166,7 +163,7 @@ func (x *extractor) irExpr(e ast.Expr) string {
 	case *ast.ArrayType, *ast.MapType, *ast.ChanType, *ast.FuncType, *ast.InterfaceType, *ast.StructType:
 		return "(.var " + lstr(x.typeStr(e)) + ")"
 	}
-	return "(.unsupported " + lstr(exprStr(e)) + ")"
+	return "(.unsupported " + lstr(x.src(e)) + ")"
 }
 
 // closures are kept as the (comment-free, position-free) text of their own IR, so a change inside one is still a change
@@ -211,18 +208,18 @@ func (x *extractor) irStmt(s ast.Stmt, ind string) string {
 		if v.Tok == token.DEFINE {
 			names, ok := identNames(v.Lhs)
 			if !ok {
-				return "(.unsupported " + lstr(exprStr(v)) + ")"
+				return "(.unsupported " + lstr(x.src(v)) + ")"
 			}
 			return "(.define " + lstrs(names) + " " + x.irExprs(v.Rhs) + ")"
 		}
 		if v.Tok == token.ASSIGN {
 			return "(.assign " + x.irExprs(v.Lhs) + " " + x.irExprs(v.Rhs) + ")"
 		}
-		return "(.unsupported " + lstr(exprStr(v)) + ")"
+		return "(.unsupported " + lstr(x.src(v)) + ")"
 	case *ast.DeclStmt:
 		gd, ok := v.Decl.(*ast.GenDecl)
 		if !ok || gd.Tok != token.VAR || len(gd.Specs) != 1 {
-			return "(.unsupported " + lstr(exprStr(v)) + ")"
+			return "(.unsupported " + lstr(x.src(v)) + ")"
 		}
 		vs := gd.Specs[0].(*ast.ValueSpec)
 		names := make([]string, len(vs.Names))
@@ -235,7 +232,7 @@ func (x *extractor) irStmt(s ast.Stmt, ind string) string {
 		if len(names) == 1 && vs.Type != nil {
 			return "(.declare " + lstr(names[0]) + " " + lstr(x.typeStr(vs.Type)) + ")"
 		}
-		return "(.unsupported " + lstr(exprStr(v)) + ")"
+		return "(.unsupported " + lstr(x.src(v)) + ")"
 	case *ast.IfStmt:
 		els := "B[]"
 		if v.Else != nil {
@@ -264,7 +261,7 @@ func (x *extractor) irStmt(s ast.Stmt, ind string) string {
 			return "?"
 		}
 		if v.Tok != token.DEFINE && !(v.Key == nil && v.Value == nil) {
-			return "(.unsupported " + lstr(exprStr(v)) + ")"
+			return "(.unsupported " + lstr(x.src(v)) + ")"
 		}
 		return "(.rangeS " + lstr(name(v.Key)) + " " + lstr(name(v.Value)) + " " + x.irExpr(v.X) + " " + x.irBlock(v.Body.List, ind) + ")"
 	case *ast.SelectStmt:
@@ -282,10 +279,10 @@ func (x *extractor) irStmt(s ast.Stmt, ind string) string {
 						guard = "(.bin \":=\" (.lit \"names\" " + x.irExprs(cs.Lhs) + ") " + x.irExpr(cs.Rhs[0]) + ")"
 						_ = names
 					} else {
-						guard = "(.unsupported " + lstr(exprStr(cs)) + ")"
+						guard = "(.unsupported " + lstr(x.src(cs)) + ")"
 					}
 				default:
-					guard = "(.unsupported " + lstr(exprStr(cc.Comm)) + ")"
+					guard = "(.unsupported " + lstr(x.src(cc.Comm)) + ")"
 				}
 			}
 			parts = append(parts, ind+"  ("+guard+", "+x.irBlock(cc.Body, ind+"  ")+")")
@@ -307,7 +304,7 @@ func (x *extractor) irStmt(s ast.Stmt, ind string) string {
 			}
 		}
 		if subj == "" || v.Init != nil {
-			return "(.unsupported " + lstr(exprStr(v)) + ")"
+			return "(.unsupported " + lstr(x.src(v)) + ")"
 		}
 		parts := []string{}
 		for _, c := range v.Body.List {
@@ -327,7 +324,7 @@ func (x *extractor) irStmt(s ast.Stmt, ind string) string {
 		return "(.ret " + x.irExprs(v.Results) + ")"
 	case *ast.BranchStmt:
 		if v.Label != nil {
-			return "(.unsupported " + lstr(exprStr(v)) + ")"
+			return "(.unsupported " + lstr(x.src(v)) + ")"
 		}
 		switch v.Tok {
 		case token.BREAK:
@@ -335,12 +332,12 @@ func (x *extractor) irStmt(s ast.Stmt, ind string) string {
 		case token.CONTINUE:
 			return ".cont"
 		}
-		return "(.unsupported " + lstr(exprStr(v)) + ")"
+		return "(.unsupported " + lstr(x.src(v)) + ")"
 	case *ast.IncDecStmt:
 		if id, ok := v.X.(*ast.Ident); ok && v.Tok == token.INC {
 			return "(.incr " + lstr(id.Name) + ")"
 		}
-		return "(.unsupported " + lstr(exprStr(v)) + ")"
+		return "(.unsupported " + lstr(x.src(v)) + ")"
 	case *ast.ExprStmt:
 		return "(.expr " + x.irExpr(v.X) + ")"
 	case *ast.DeferStmt:
@@ -352,15 +349,44 @@ func (x *extractor) irStmt(s ast.Stmt, ind string) string {
 	case *ast.BlockStmt:
 		return "(.ifS B[] (.var \"true\") " + x.irBlock(v.List, ind) + " B[])"
 	}
-	return "(.unsupported " + lstr(exprStr(s)) + ")"
+	return "(.unsupported " + lstr(x.src(s)) + ")"
 }
 
 func leanIdent(q string) string { return strings.ReplaceAll(q, ".", "_") }
 
+// every function / method of the package with a body, receiver-qualified, sorted
+func (x *extractor) allFuncs() []string {
+	var out []string
+	for _, f := range x.files {
+		for _, d := range f.Decls {
+			fd, ok := d.(*ast.FuncDecl)
+			if !ok || fd.Body == nil {
+				continue
+			}
+			name := fd.Name.Name
+			if fd.Recv != nil && len(fd.Recv.List) == 1 {
+				t := fd.Recv.List[0].Type
+				if st, ok := t.(*ast.StarExpr); ok {
+					t = st.X
+				}
+				if ix, ok := t.(*ast.IndexExpr); ok {
+					t = ix.X
+				}
+				if id, ok := t.(*ast.Ident); ok {
+					name = id.Name + "." + name
+				}
+			}
+			out = append(out, name)
+		}
+	}
+	sort.Strings(out)
+	return out
+}
+
 func (x *extractor) renderIR() string {
 	var sb strings.Builder
-	sb.WriteString("import FlytModel.GoIR.Syntax\n/-! GENERATED by /verif/extract from the current source of mark3labs/flyt — do not edit.\n    One GoIR term per orchestration function (syntax-directed translation of its body). -/\nnamespace Flyt.Generated.IR\nopen Flyt.GoIR\nset_option maxRecDepth 4096\n\n")
-	names := append([]string{}, irFuncs...)
+	sb.WriteString("import FlytModel.GoIR.Syntax\n/-! GENERATED by /verif/extract from the current source of mark3labs/flyt — do not edit.\n    One GoIR term per function of the package (syntax-directed translation of its body). -/\nnamespace Flyt.Generated.IR\nopen Flyt.GoIR\nset_option maxRecDepth 8192\n\n")
+	names := x.allFuncs()
 	for _, q := range names {
 		fd := x.findFunc(q)
 		if fd == nil {
@@ -385,13 +411,10 @@ func (x *extractor) renderIR() string {
 		}
 		fmt.Fprintf(&sb, "def %s : Func := { name := %s, recv := %s, params := %s, body :=\n%s }\n\n", leanIdent(q), lstr(q), lstr(recv), lstrs(params), x.irBlock(fd.Body.List, ""))
 	}
-	sort.Strings(names)
-	sb.WriteString("def all : List Func := [" + strings.Join(func() []string {
-		o := make([]string, len(irFuncs))
-		for i, q := range irFuncs {
-			o[i] = leanIdent(q)
-		}
-		return o
-	}(), ", ") + "]\n\nend Flyt.Generated.IR\n")
+	idents := make([]string, len(names))
+	for i, q := range names {
+		idents[i] = leanIdent(q)
+	}
+	sb.WriteString("def all : List Func := [" + strings.Join(idents, ", ") + "]\n\nend Flyt.Generated.IR\n")
 	return sb.String()
 }
